@@ -279,6 +279,78 @@ def _unconditional_delivery(g: FunctionInfo) -> bool:
     return False
 
 
+class Withdraw(RuleAnalysis):
+    """in a loop callback: fact 'unknown' | 'lent' (the lent-buffer attribute is known to be set) | 'withdrawn'"""
+    tokens = ("Exception",)
+
+    def __init__(self, engine, attr):
+        super().__init__(engine)
+        self.attr = attr
+        self.tests = 0
+
+    def initial(self, fn):
+        return ["unknown"]
+
+    def may_raise(self, node, fact):
+        return []
+
+    def transfer(self, node, fact):
+        if isinstance(node, ast.Assign) and any(dotted(t) == self.attr for t in node.targets):
+            return ["withdrawn" if isinstance(node.value, ast.Constant) and node.value.value is None else "lent"]
+        return [fact]
+
+    def branch(self, test, fact):
+        t, neg = test, False
+        while isinstance(t, ast.UnaryOp) and isinstance(t.op, ast.Not):
+            t, neg = t.operand, not neg
+        if isinstance(t, ast.Compare) and len(t.ops) == 1 and isinstance(t.comparators[0], ast.Constant) and t.comparators[0].value is None:
+            left = t.left.value if isinstance(t.left, ast.NamedExpr) else t.left
+            if dotted(left) == self.attr and fact == "unknown":
+                self.tests += 1
+                lent_when_true = isinstance(t.ops[0], ast.IsNot)
+                tr, fl = (["lent"], ["withdrawn"]) if lent_when_true else (["withdrawn"], ["lent"])
+                return (fl, tr) if neg else (tr, fl)
+        return [fact], [fact]
+
+
+def check_withdraw(eng, run, rule="C10.lend"):
+    """a lent buffer is good for one delivery: the callback through which the event loop reports bytes written into it withdraws it
+    before returning to the loop - otherwise the next arrival (before the waiting task runs) overwrites the first and its count
+    replaces the first one"""
+    n = 0
+    for ci in eng.db.classes.values():
+        gb = ci.methods.get("get_buffer")
+        bu = ci.methods.get("buffer_updated")
+        if gb is None or bu is None:
+            continue
+        returned = set()
+        for node in own_nodes(gb.node):
+            if isinstance(node, ast.NamedExpr) and isinstance(node.value, ast.Attribute) and dotted(node.value.value) == gb.self_name:
+                returned.add(node.value.attr)
+        # only attributes that some method fills from a parameter (a caller-owned buffer)
+        lent = set()
+        for fn in ci.methods.values():
+            if isinstance(fn.node, ast.Lambda):
+                continue
+            ps = {a.arg for a in fn.params()[1:]}
+            for st in own_nodes(fn.node):
+                if isinstance(st, ast.Assign) and any(isinstance(x, ast.Name) and x.id in ps for x in ast.walk(st.value)):
+                    for t in st.targets:
+                        if isinstance(t, ast.Attribute) and t.attr in returned:
+                            lent.add(t.attr)
+        for a in sorted(lent):
+            attr = f"{bu.self_name}.{a}"
+            n += 1
+            an = Withdraw(eng, attr)
+            out = Interp(an, bu).run()
+            bad = [tr for f, tr in out.ret.items() if f == "lent"]
+            for tr in bad[:1]:
+                run.finding(rule, bu, _line_stmt(bu, tr[-1]) if tr else bu.node, f"buffer_updated() returns to the event loop with the caller's buffer still registered in `{attr}` after bytes were written "
+                            "into it: a second arrival before the waiting task runs overwrites them and only its count is delivered", tr)
+            run.ob(rule, f"{bu.short}:{attr}:withdrawn-before-returning-to-the-loop", not bad and an.tests > 0, tests=an.tests)
+    run.floor(f"{rule} lent buffers with a buffer_updated callback", n, 1)
+
+
 def check_ack(eng, run):
     n = 0
     for ci in eng.db.classes.values():
@@ -515,6 +587,9 @@ def run(eng, run):
     run.floor("C10.hold async functions with a source", len(fns), 14)
     run.floor("C10.hold source sites", total_sources, 14)
     check_lend(eng, run)
+    check_withdraw(eng, run)
+    from rules.c03 import check_water_marks
+    check_water_marks(eng, run, rule="C10.flow")
     check_ack(eng, run)
     check_parser(eng, run)
     check_eof_latch(eng, run)
@@ -609,4 +684,11 @@ BENIGN += [
                                     "try:\n    nbytes = await self.transport.recv_into(buffer := self.buffer_view)\nexcept OSError:\n    read_bio.write_eof()\n    raise\nif nbytes > 0:\n    return read_bio.write(buffer[:nbytes])"),
             why="only a transport error (never a cancellation) latches EOF"),
     Variant("parser-swap-in-else-arm", _SDC, lambda fn: replace_stmt(fn, stmt_is("self.__consumer = None"), "_unused, self.__consumer = None, None"), why="reset written as a tuple assignment"),
+]
+
+
+MUTANTS += [
+    Variant("buffer-updated-keeps-the-lent-buffer-registered", "lowlevel.api_async.backend._asyncio.stream.socket:StreamReaderBufferedProtocol.buffer_updated",
+            lambda fn: delete_stmt(fn, stmt_is("self.__external_buffer_view = None")), "C10.lend",
+            why="two arrivals before the task wakes: the second overwrites the first (seed C10-9)"),
 ]
